@@ -45,6 +45,7 @@ def explore(tier, seed_, years=scenarios.YEARS, per_year=None, replays=True, sna
                     # the answers as the solve command writes them back (InputStore.write), re-read from that FILE
                     wdir = common.mkwork("hv_wb_")
                     conf = os.path.join(wdir, "written_back.habutax")
+                    open(conf, "w").close()          # the command writes back into the (existing) input file
                     solver._i.write(conf)
                     import habutax.forms as F
                     try:
